@@ -116,6 +116,15 @@ def judge_registry(part, b, ty, ent, decl=None):
     if ent["unit_iter"] != obs:
         viol(part, b, ty, "iter_mismatch", "Unit::iter() %s differs from Quantity::iter_units() %s" % (ent["unit_iter"], obs))
     by_var = {e["variant"]: e for e in ents}
+    dsyms = [e["symbol"] for e in ents]
+    if len(set(dsyms)) == len(dsyms):
+        # declared symbols are unique (as in the whole catalogue): every unit must be found by its own symbol
+        seen = {}
+        for u in ent["units"]:
+            if u["symbol"] in seen:
+                viol(part, b, ty, "symbol_collision", "units %s and %s report the same symbol %r although the declared symbols are unique, so %s cannot be looked up by symbol" % (
+                    seen[u["symbol"]], u["dbg"], u["symbol"], u["dbg"]), extra=u["dbg"])
+            seen.setdefault(u["symbol"], u["dbg"])
     if has_ref:
         if ent["kind"] != "ref":
             viol(part, b, ty, "kind", "declared with reference unit but executor kind is %s" % ent["kind"])
